@@ -463,6 +463,7 @@ class ProgGen:
         if k in ("add", "estimate_added_delay"):
             n = pick(r, self._pulse_chans(False))
             if self.pulse_fn is not None:
+                self.cur_channel = n  # lets a pulse_fn look at the channel it is generating for
                 p = self.pulse_fn(r, self.chans[n]["spec"], self._phase(n))
             else:
                 p = gen_pulse(r, self.chans[n]["spec"], phase=self._phase(n), big=self.big)
